@@ -265,6 +265,9 @@ func sigParamNames(sig *types.Signature) []string {
 }
 
 func fnKeyOf(fn *ssa.Function) (pkgPath, key string) {
+	if pp, k, ok := anonKey(fn); ok {
+		return pp, k
+	}
 	sig := fn.Signature
 	if fn.Pkg != nil {
 		pkgPath = fn.Pkg.Pkg.Path()
@@ -301,6 +304,11 @@ func (e *FnEnc) encCall(cc *ssa.CallCommon, instr *ssa.Call, pos token.Pos) *Val
 	var calleePkg *types.Package
 	var names []string
 	isRepo := false
+	for _, a := range cc.Args {
+		if mc, ok := a.(*ssa.MakeClosure); ok {
+			e.closureAxiom(mc)
+		}
+	}
 	if cc.IsInvoke() {
 		recv := e.val(cc.Value)
 		args = append(args, recv)
@@ -670,6 +678,10 @@ func (e *FnEnc) encBuiltin(b *ssa.Builtin, cc *ssa.CallCommon, instr *ssa.Call, 
 			dn, ds := e.mapDom(t)
 			r := "(" + f + " " + a.L[0] + " (select " + e.heapArr(dn, ds) + " " + a.L[0] + "))"
 			e.assume(e.idxLe(e.idxConst(0), r))
+			// an empty map has no keys; a nil map is empty
+			domRow := "(select " + e.heapArr(dn, ds) + " " + a.L[0] + ")"
+			e.assume(simp(seq(r, e.idxConst(0)), "(forall ((k "+e.mapKeySort(t)+")) (! (not (select "+domRow+" k)) :pattern ((select "+domRow+" k))))"))
+			e.assume(simp(seq(a.L[0], "0"), seq(r, e.idxConst(0))))
 			return &Val{T: tInt, L: []string{r}}
 		case *types.Chan:
 			v := e.freshVal("chanlen", tInt)
